@@ -105,7 +105,7 @@ def gen_stream(rng):
 
 OPKINDS = (['read'] * 5 + ['F'] * 2 + ['get_flow'] * 3 + ['get_total'] * 2 + ['set'] * 6 + ['set_flow'] * 4 + ['set_total'] * 2
            + ['setF'] * 2 + ['T'] * 3 + ['P'] * 2 + ['phase'] * 4 + ['phases'] * 3 + ['link'] * 4 + ['unlink'] * 3
-           + ['copy_like'] * 3 + ['thermo'] * 2 + ['rtrip'] * 1 + ['sub'] * 3 + ['alias'] * 2)
+           + ['copy_like'] * 3 + ['thermo'] * 2 + ['rtrip'] * 1 + ['alias'] * 2)
 
 def gen_op(rng):
     k = rng.choice(OPKINDS)
@@ -132,7 +132,6 @@ def gen_op(rng):
     if k == 'copy_like': return [k, i, j]
     if k == 'thermo': return [k, i, rng.randrange(2)]
     if k == 'rtrip': return [k, i, rng.randrange(2)]
-    if k == 'sub': return [k, i, ph]
     if k == 'alias': return [k, i]
     raise ValueError(k)
 
@@ -269,7 +268,7 @@ def apply_op(store, op):
         return res, run(lambda: setattr(s, 'phase', op[2]))
     if k == 'phases':
         phs = list(op[2])
-        keep = nonempty_phases(s)
+        keep = nonempty_phases(s) + ([] if is_multi(s) else [s.phase])
         if any(p not in phs for p in keep):
             return ['skip'], None           # would drop or relabel material: C12's domain
         res = ['phases', i, phs]
@@ -279,6 +278,8 @@ def apply_op(store, op):
         o = store[j]
         if pkg_of(s) != pkg_of(o) or i == j:
             return ['skip'], None
+        if is_multi(s) and is_multi(o) and op[3] and tuple(s._imol._phases) != tuple(o._imol._phases):
+            return ['skip'], None           # flow link between different phase tuples: C13's domain
         res = ['link', i, j, op[3], op[4], op[5]]
         return res, run(lambda: s.link_with(o, op[3], op[4], op[5]))
     if k == 'unlink':
@@ -289,6 +290,13 @@ def apply_op(store, op):
         o = store[j]
         if pkg_of(s) != pkg_of(o):
             return ['skip'], None
+        if is_multi(o) and not is_multi(s) and s.phase not in o._imol._phases:
+            return ['skip'], None           # Stream.phases setter fails half-way: C12/C13's domain
+        if is_multi(o) and is_multi(s) and set(s._imol._phases) != set(o._imol._phases):
+            return ['skip'], None           # positional copy after expansion: C13's domain
+        if is_multi(s) and not is_multi(o) and o.phase not in s._imol._phase_indexer \
+                and any(x is not s and x._imol.data is s._imol.data for x in store):
+            return ['skip'], None           # expanding the phases of a linked MultiStream: C13's domain
         res = ['copy_like', i, j]
         return res, run(lambda: s.copy_like(o))
     if k == 'thermo':
@@ -304,19 +312,6 @@ def apply_op(store, op):
                 return
             container = s._imol.reset_chemicals(new)
             s._imol.reset_chemicals(old, container)
-        return res, run(f)
-    if k == 'sub':
-        if not is_multi(s):
-            return ['skip'], None
-        phases = s._imol._phases
-        r = op[2] % len(phases)
-        res = ['sub', i, r]
-        def f():
-            sub = s[phases[r]]
-            for x in store:
-                if x is sub:
-                    return
-            store.append(sub)
         return res, run(f)
     raise ValueError(k)
 
@@ -380,7 +375,6 @@ def cop(o):
     if k == 'copy_like': return f'(OCopyLike {cnat(o[1])} {cnat(o[2])})'
     if k == 'thermo': return f'(OThermo {cnat(o[1])} {cnat(o[2])})'
     if k == 'rtrip': return f'(ORoundTrip {cnat(o[1])} {cnat(o[2])})'
-    if k == 'sub': return f'(OSub {cnat(o[1])} {cnat(o[2])})'
     raise ValueError(k)
 
 def cmat(m):
@@ -424,7 +418,7 @@ def coq_case(case, out):
 def coq_show(case, out):
     return f'(show_case {cutab()} {clist(case["streams"], cinit)} {clist(out["ops"], cop)})'
 
-STRUCT = ('T', 'P', 'phase', 'phases', 'link', 'unlink', 'copy_like', 'thermo', 'rtrip', 'sub')
+STRUCT = ('T', 'P', 'phase', 'phases', 'link', 'unlink', 'copy_like', 'thermo', 'rtrip')
 WRITES = ('set', 'set_flow', 'set_total', 'setF')
 def nontrivial(case, out):
     ok = [o[0] for o, b in zip(out.get('ops', []), out.get('obs', [])) if not (isinstance(b, str))]
@@ -478,7 +472,7 @@ def check_stream(s, where):
         fv = s.F_vol
     except Exception as ex:
         return f'{where}: F_vol raised {type(ex).__name__}'
-    if not close(fv, vol.sum()): return f'{where}: F_vol {fv} != sum vol {vol.sum()}'
+    if (mol >= 0).all() and not close(fv, vol.sum()): return f'{where}: F_vol {fv} != sum vol {vol.sum()}'
     fl = alias_flags(s)
     if not all(fl): return f'{where}: cached views do not wrap the current molar data/TP/phase: flags {fl}'
     return None
@@ -510,7 +504,7 @@ def oracle(case):
             if k in ('read', 'F', 'alias', 'get_flow', 'get_total'):
                 if not (k in ('get_flow', 'get_total') and e['utab'][op[2]][1] is None):
                     return f'{where}: reading raised {type(ex).__name__}: {ex}'
-            if k in ('unlink', 'copy_like', 'phases', 'phase', 'thermo', 'rtrip', 'sub') and not (k == 'unlink' and 'locked' in str(ex)):
+            if k in ('unlink', 'copy_like', 'phases', 'phase', 'thermo', 'rtrip') and not (k == 'unlink' and 'locked' in str(ex)):
                 return f'{where}: raised {type(ex).__name__}: {ex}'
             res = None
         if res is not None and res[0] != 'skip':
